@@ -56,7 +56,7 @@ the content was read (the caller seeks back). -/
 def capContent (typ len start : Nat) (c : Cur) : Outcome Cur :=
   let fuel := c.remaining + 1
   match typ with
-  | 1 => c.advance 4                                   -- MultiProtocol: u16 u8 u8
+  | 1 => if len ≠ 4 then .err else c.advance 4         -- MultiProtocol: len 4; u16 u8 u8
   | 2 => if len ≠ 0 then .err else .ok c               -- RouteRefresh
   | 3 | 130 =>                                         -- (Prestandard)OutboundRouteFiltering
     match c.advance 4 with
@@ -76,9 +76,10 @@ def capContent (typ len start : Nat) (c : Cur) : Outcome Cur :=
     | .ok c => loopRead 4 (start + len) fuel c
     | .err => .err
     | .panic => .panic
-  | 65 => c.advance 4                                  -- FourOctetAsn
+  | 65 => if len ≠ 4 then .err else c.advance 4        -- FourOctetAsn: len 4
   | 66 | 67 => c.advance len                           -- (Deprecated)DynamicCapability: len x u8
-  | 68 | 131 =>                                        -- (Prestandard)Multisession: u8, then `0..len.saturating_sub(1)` x u8
+  | 68 | 131 =>                                        -- (Prestandard)Multisession: len ≠ 0; u8, then `0..len-1` x u8
+    if len = 0 then .err else
     match c.advance 1 with
     | .ok c => c.advance (len - 1)
     | .err => .err
@@ -240,11 +241,12 @@ def openParse (bs : Bytes) : Outcome Nat :=
   | .err => .err
   | .panic => .panic
 
-/-- `NotificationMessage::parse` at the start of `bs`: header, code, subcode,
-seek back, take `hdr.length()` octets -/
+/-- `NotificationMessage::parse` at the start of `bs`: header (length field
+at least 21), code, subcode, seek back, take `hdr.length()` octets -/
 def notifParse (bs : Bytes) : Outcome Nat :=
   match headerParse ⟨bs, 0⟩ with
   | .ok (hlen, c) =>
+    if hlen < 21 then .err else
     match c.advance 2 with
     | .ok _ => if hlen ≤ bs.length then .ok hlen else .err
     | .err => .err
